@@ -237,15 +237,6 @@ theorem prefixmatch_iff (r : R) (s : Str) :
 
 /-! ### literal patterns -/
 
-/-- characters the regular expression parser treats specially outside sets -/
-def parserSpecial (c : Nat) : Bool :=
-  c == 92 || c == 46 || c == 42 || c == 40 || c == 124 || c == 41 || c == 91 || c == 63 || c == 43 ||
-  c == 123 || c == 125 || c == 94 || c == 36
-
-/-- a character that no rewrite key starts with and the parser reads as itself -/
-def plainChar (c : Nat) : Bool :=
-  (rewriteTable.all fun p => p.1.head? != some c) && !parserSpecial c
-
 theorem firstKey_none (tbl : List (Str × Str)) (c : Nat) (cs : Str)
     (h : tbl.all (fun p => p.1.head? != some c) = true) : firstKey tbl (c :: cs) = none := by
   induction tbl with
@@ -2674,5 +2665,210 @@ theorem nodup_filterMap_pairAbs {s : St} {k : DispKind} (hd : DInv s k) :
           | some r => simp [hl] at hpq; rw [← hpq]
         exact hn.1 (by rw [← e1, ← he, e2]; exact List.mem_map_of_mem hp')
   exact this _ hd.wrRids
+
+theorem alookup_adisable (a : ASt) (rid x : Nat) :
+    alookup (adisable a rid) x =
+      if x = rid then (alookup a x).map (fun r => { r with enabled := false }) else alookup a x := by
+  cases hl : alookup a rid with
+  | none =>
+    have : adisable a rid = a := by simp [adisable, hl]
+    rw [this]
+    by_cases hx : x = rid
+    · subst hx; simp [hl]
+    · simp [hx]
+  | some r =>
+    cases hen : r.enabled
+    · have : adisable a rid = a := by simp [adisable, hl, hen]
+      rw [this]
+      by_cases hx : x = rid
+      · subst hx
+        simp only [hl, if_true, Option.map_some]
+        congr 1
+        cases r; simp_all
+      · simp [hx]
+    · unfold adisable
+      simp only [hl, hen, Bool.not_true, Bool.false_eq_true, if_false]
+      have : ∀ (y : ASt) (c : List ActKey), alookup ({ y with cmd := c } : ASt) x = alookup y x := fun _ _ => rfl
+      rw [this, alookup_withDisp, alookup_aset]
+      by_cases hx : x = rid
+      · subst hx; simp [hl]
+      · simp [hx]
+
+theorem adisableAll_disables (a : ASt) : ∀ (rids : List Nat) (rid : Nat), rid ∈ rids →
+    (∃ r, alookup a rid = some r) →
+    (alookup (adisableAll a rids) rid).map (·.enabled) = some false ∧
+      ∀ x, (alookup a x).map (·.enabled) = some false →
+        (alookup (adisableAll a rids) x).map (·.enabled) = some false := by
+  intro rids
+  induction rids generalizing a with
+  | nil => intro rid h; cases h
+  | cons y ys ih =>
+    intro rid hmem hex
+    have keep : ∀ (b : ASt) (l : List Nat) x, (alookup b x).map (·.enabled) = some false →
+        (alookup (adisableAll b l) x).map (·.enabled) = some false := by
+      intro b l
+      induction l generalizing b with
+      | nil => intro x hx; exact hx
+      | cons z zs ihz =>
+        intro x hx
+        simp only [adisableAll]
+        apply ihz
+        rw [alookup_adisable]
+        split
+        · cases hb : alookup b x with
+          | none => simp [hb] at hx
+          | some r => simp
+        · exact hx
+    refine ⟨?_, fun x hx => keep a (y :: ys) x hx⟩
+    simp only [adisableAll]
+    by_cases hy : rid = y
+    · subst hy
+      apply keep
+      rw [alookup_adisable]
+      obtain ⟨r, hr⟩ := hex
+      simp [hr]
+    · have hin : rid ∈ ys := by
+        rcases List.mem_cons.mp hmem with h | h
+        · exact absurd h hy
+        · exact h
+      have hex' : ∃ r, alookup (adisable a y) rid = some r := by
+        rw [alookup_adisable]; simpa [hy] using hex
+      exact (ih (adisable a y) rid hin hex').1
+
+theorem firstKey_qmark (cs : Str) : firstKey rewriteTable (63 :: cs) = some ([46], 1) := by
+  simp [rewriteTable, firstKey, stripPrefix]
+
+theorem firstKey_star (cs : Str) : firstKey rewriteTable (42 :: cs) = some ([46, 42], 1) := by
+  simp [rewriteTable, firstKey, stripPrefix]
+
+theorem rewrite_sprint : ∀ (p : List STok), (∀ t ∈ p, t.ok = true) →
+    rewriteGo rewriteTable 0 (sprint p) = p.flatMap STok.text
+  | [], _ => rfl
+  | t :: p, h => by
+    have ih := rewrite_sprint p fun x hx => h x (List.mem_cons_of_mem _ hx)
+    cases t with
+    | lit c =>
+      have hc : plainChar c = true := h (.lit c) List.mem_cons_self
+      have h1 : rewriteTable.all (fun p => p.1.head? != some c) = true := by
+        simp only [plainChar, Bool.and_eq_true] at hc; exact hc.1
+      simp only [sprint, List.flatMap_cons, STok.print, STok.text, List.cons_append, List.nil_append, rewriteGo,
+        firstKey_none rewriteTable c _ h1]
+      exact congrArg _ ih
+    | any1 =>
+      simp only [sprint, List.flatMap_cons, STok.print, STok.text, List.cons_append, List.nil_append, rewriteGo,
+        firstKey_qmark]
+      exact congrArg _ ih
+    | star =>
+      simp only [sprint, List.flatMap_cons, STok.print, STok.text, List.cons_append, List.nil_append, rewriteGo,
+        firstKey_star]
+      have : rewriteGo rewriteTable (1 - 1) (List.flatMap STok.print p) = List.flatMap STok.text p := ih
+      rw [this]
+
+theorem prun_tokens : ∀ (p : List STok) (f : Frame) (fs : List Frame), (∀ t ∈ p, t.ok = true) →
+    prun ⟨f :: fs, .top⟩ (p.flatMap STok.text) =
+      .ok ⟨{ f with cur := f.cur ++ p.map STok.regex } :: fs, .top⟩
+  | [], f, fs, _ => by simp [prun]
+  | t :: p, f, fs, h => by
+    have hrest := fun (f' : Frame) => prun_tokens p f' fs fun x hx => h x (List.mem_cons_of_mem _ hx)
+    cases t with
+    | lit c =>
+      have hc : plainChar c = true := h (.lit c) List.mem_cons_self
+      have h2 : parserSpecial c = false := by
+        simp only [plainChar, Bool.and_eq_true] at hc; simpa using hc.2
+      simp only [List.flatMap_cons, STok.text, List.cons_append, List.nil_append, prun,
+        pstep_plain _ c h2, pushItem, ok_bind]
+      rw [hrest]
+      simp [STok.regex, List.append_assoc]
+    | any1 =>
+      simp only [List.flatMap_cons, STok.text, List.cons_append, List.nil_append, prun]
+      have : pstep ⟨f :: fs, .top⟩ 46 = .ok ⟨{ f with cur := f.cur ++ [R.any] } :: fs, .top⟩ := by
+        simp [pstep, pushItem]
+      rw [this]
+      simp only [ok_bind]
+      rw [hrest]
+      simp [STok.regex, List.append_assoc]
+    | star =>
+      simp only [List.flatMap_cons, STok.text, List.cons_append, List.nil_append, prun]
+      have h1 : pstep ⟨f :: fs, .top⟩ 46 = .ok ⟨{ f with cur := f.cur ++ [R.any] } :: fs, .top⟩ := by
+        simp [pstep, pushItem]
+      have h2 : pstep ⟨{ f with cur := f.cur ++ [R.any] } :: fs, .top⟩ 42
+          = .ok ⟨{ f with cur := f.cur ++ [R.star R.any] } :: fs, .top⟩ := by
+        simp [pstep, repeatLast]
+        rfl
+      rw [h1]
+      simp only [ok_bind]
+      rw [h2]
+      simp only [ok_bind]
+      rw [hrest]
+      simp [STok.regex, List.append_assoc]
+
+theorem matches_seqOf_cons (r : R) (rs : List R) (s : Str) :
+    Matches (seqOf (r :: rs)) s ↔ ∃ s1 s2, s = s1 ++ s2 ∧ Matches r s1 ∧ Matches (seqOf rs) s2 := by
+  cases rs with
+  | nil =>
+    simp only [seqOf]
+    constructor
+    · intro h; exact ⟨s, [], by simp, h, .eps⟩
+    · rintro ⟨s1, s2, rfl, h1, h2⟩; cases h2; simpa using h1
+  | cons x xs => simp only [seqOf]; exact matches_cat
+
+theorem matches_star_any (s : Str) : Matches (.star .any) s ↔ ∀ c ∈ s, c ≠ 10 := by
+  constructor
+  · intro h
+    generalize hr : R.star R.any = r at h
+    induction h with
+    | starNil => intro c hc; cases hc
+    | @starCons a s1 s2 h1 _ _ ih2 =>
+      cases hr
+      intro c hc
+      rcases List.mem_append.mp hc with hc | hc
+      · cases h1 with | any x hx => simp at hc; subst hc; exact hx
+      · exact ih2 rfl c hc
+    | _ => cases hr
+  · intro h
+    induction s with
+    | nil => exact .starNil
+    | cons c cs ih =>
+      have : c :: cs = [c] ++ cs := rfl
+      rw [this]
+      exact .starCons (.any c (h c List.mem_cons_self)) (ih fun x hx => h x (List.mem_cons_of_mem _ hx))
+
+theorem matches_tokens : ∀ (p : List STok) (s : Str), Matches (seqOf (p.map STok.regex)) s ↔ SMatches p s
+  | [], s => by
+    simp only [List.map_nil, seqOf, matches_eps]
+    constructor
+    · rintro rfl; exact .nil
+    · intro h; cases h; rfl
+  | t :: p, s => by
+    simp only [List.map_cons]
+    rw [matches_seqOf_cons]
+    have ih := matches_tokens p
+    cases t with
+    | lit c =>
+      simp only [STok.regex]
+      constructor
+      · rintro ⟨s1, s2, rfl, h1, h2⟩
+        cases h1
+        exact .lit ((ih s2).mp h2)
+      · intro h
+        cases h with
+        | lit h' => exact ⟨[c], _, rfl, .chr c, (ih _).mpr h'⟩
+    | any1 =>
+      simp only [STok.regex]
+      constructor
+      · rintro ⟨s1, s2, rfl, h1, h2⟩
+        cases h1 with
+        | any c hc => exact .any1 hc ((ih s2).mp h2)
+      · intro h
+        cases h with
+        | any1 hc h' => exact ⟨[_], _, rfl, .any _ hc, (ih _).mpr h'⟩
+    | star =>
+      simp only [STok.regex]
+      constructor
+      · rintro ⟨s1, s2, rfl, h1, h2⟩
+        exact .star ((matches_star_any s1).mp h1) ((ih s2).mp h2)
+      · intro h
+        cases h with
+        | star hs h' => exact ⟨_, _, rfl, (matches_star_any _).mpr hs, (ih _).mpr h'⟩
 
 end Sc3Verif.C18
